@@ -25,7 +25,8 @@ void good_iocount (P *p, sf_count_t skip)
 {	char junk [64] ;
 	while (skip > 0)
 	{	sf_count_t n = skip < 64 ? skip : 64 ;
-		psf_fread (junk, 1, n, p) ;
+		if (psf_fread (junk, 1, n, p) != n)
+			break ;
 		skip -= n ;
 		}
 }
